@@ -10,10 +10,11 @@ ROOT = os.path.dirname(os.path.dirname(os.path.abspath(__file__)))
 sys.path.insert(0, ROOT)
 props = [json.loads(l) for l in open(os.path.join(ROOT, "properties.jsonl"))]
 checks, na = [], []
+READY = set(open(os.path.join(ROOT, "tools", "ready.txt")).read().split())
 for p in props:
     pid = p["id"]
     mods = glob.glob(os.path.join(ROOT, "props", pid.lower() + "*.py"))
-    if not mods:
+    if not mods or pid not in READY:
         na.append(dict(property_id=pid, reason="check not built yet (see DESIGN.md section 2 for the plan); not claimed"))
         continue
     src = open(mods[0]).read()
